@@ -157,6 +157,11 @@ def assigned_names(stmts) -> List[str]:
             if n.name not in out:
                 out.append(n.name)
 
+        def visit_Yield(self, n):
+            if "__yielded__" not in out:
+                out.append("__yielded__")
+            self.generic_visit(n)
+
         def visit_Call(self, n):
             # in-place mutation of a local container: xs.append(...), d.update(...)
             f = n.func
@@ -389,10 +394,20 @@ class Interp:
             return f.call(self, st, args, kw, e)
         if isinstance(f, Noop):
             return None
+        if isinstance(getattr(f, "__self__", None), str):
+            return "<str>"                 # text formatting (error messages): value irrelevant
         if f in _SAFE_CALLABLES or getattr(f, "pyvc_pure", False):
             with self._ctx(st):
                 return f(*args, **kw)
         raise PyvcUnsupported(f"call of {getattr(f, '__name__', f)!r} has no contract (line {e.lineno})")
+
+    def ev_Yield(self, e, st):
+        """generator functions: every yielded value is appended to the ghost list st.env['__yielded__'] (declared by the sidecar)"""
+        y = st.env.get("__yielded__")
+        if y is None or not hasattr(y, "append"):
+            raise PyvcUnsupported("yield: the sidecar declares no '__yielded__' list")
+        y.append(self.ev(e.value, st) if e.value is not None else None)
+        return None
 
     def ev_Lambda(self, e, st):
         raise PyvcUnsupported("lambda")
